@@ -8,5 +8,7 @@ for p in sorted(glob.glob(os.path.join(HERE, "seeded", "*", "meta.json"))):
     m = json.load(open(p))
     first = m.get("first_reports") or []
     fr = first[0].split("] ", 1)[-1][:105] if first else "(not reported)"
+    if m.get("retired"):
+        fr = "(retired: site removed by a later repair) " + fr[:60]
     print(f"| {m['seed']} | {m['round']} | {', '.join(m.get('caught_by') or []) or '—'} | "
           f"{'yes' if m.get('caught_by_when_first_seen') else 'no'} | {fr.replace('|', '/')} |")
